@@ -7,6 +7,8 @@ generated models, at chosen states and at the states an integrator visits.
 
 from __future__ import annotations
 
+import copy
+
 import pandas as pd
 
 from mon import contracts as ct
@@ -98,6 +100,37 @@ def run_case(case: dict) -> dict:
         model.get_args_time_course(frame, include_readouts=True)
         model.get_fluxes_time_course(frame)
         model.get_right_hand_side_time_course(args_tc)
+        # the same object after a parameter changed: everything the derivative is made of (named and computed coefficients
+        # included) is its function applied to the values its arguments have NOW
+        plain = [c for c in spec["components"] if c["kind"] == "parameter" and "value" in c]
+        if plain and rng.random() < 0.5:
+            named = {v for c in spec["components"] if c["kind"] == "reaction" for v in c["stoich"].values() if isinstance(v, str)}
+            named |= {a for c in spec["components"] if c["kind"] == "reaction" for v in c["stoich"].values() if isinstance(v, dict) for a in v["args"]}
+            cands = [c["name"] for c in plain if c["name"] in named] or [c["name"] for c in plain]
+            tgt = rng.choice(cands)
+            old_v = next(c["value"] for c in plain if c["name"] == tgt)
+            factor = rng.choice([0.5, 2.0, 3.0])
+            spec2 = copy.deepcopy(spec)
+            for c in spec2["components"]:
+                if c["kind"] == "parameter" and c["name"] == tgt:
+                    c["value"] = old_v * factor
+            ref2 = rm.Ref(spec2)
+            ct.register(model, ref2)
+            how = rng.choice(["update_parameter", "update_parameters", "scale_parameter"])
+            if how == "update_parameter":
+                model.update_parameter(tgt, old_v * factor)
+            elif how == "update_parameters":
+                model.update_parameters({tgt: old_v * factor})
+            else:
+                model.scale_parameter(tgt, factor)
+            for st in [None, rm.random_state(ref2, rng)]:
+                t = round(rng.uniform(0.1, 5.0), 3)
+                y = [ref2.initial_conditions()[v] if st is None else st[v] for v in ref2.variables]
+                model(t, y)
+                model.get_right_hand_side(st, t)
+                model.get_stoichiometries(st, t)
+                model.get_fluxes(st, t)
+            updated = 1
         if case.get("integrate"):
             from mxlpy import Simulator
 
@@ -117,6 +150,7 @@ def run_case(case: dict) -> dict:
         viols.append(core.viol(f"{w['where']}: {w['what']}", None, witness=w, spec=spec))
     counters = dict(ct.COUNT)
     counters["cases_with_integration"] = int(bool(case.get("integrate")))
+    counters["re-queried after a parameter update on the same object"] = int("updated" in locals())
     counters["state_table_columns_not_in_declaration_order"] = int("counters_cols" in locals())
     counters["integration_budget_exhausted"] = int("counters_extra" in locals())
     for k, v in feats.items():
